@@ -246,7 +246,8 @@ def run(tier="quick", seed=0):
         #   CL  every dead chip on T plus one dead near link
         #   L2  every pair of dead near links, at least one of them on T
         #   L3  every triple of dead near links, at least two of them on T
-        # thorough: all radii x all seeds for every net; L3 for nets of <= 2 sinks.
+        # thorough: all families for every net (L3 for nets of <= 2 sinks); all radii; seeds 0..4 for nets of <= 1
+        # sink, 0..2 for 2-sink nets, one rotating seed for 3-sink nets.
         # quick: 1-sink nets get everything (all radii, 2 seeds, L1 C1 CL L2 L3); 2-sink nets get one
         # (radius, seed) combination per net (rotating) with L1 C1 L2; 3-sink nets one combination with
         # C1 and L1 restricted to the links of T.
@@ -270,8 +271,12 @@ def run(tier="quick", seed=0):
                             dup = (case_no // 4) % 3 if ns else 0
                             spec = [(src, list(sinks), dup)]
                             used = set(sinks) | {src}
-                            if thorough or ns <= 1:
+                            if ns <= 1:
                                 todo = combos
+                            elif thorough and ns == 2:
+                                todo = [(r, sd) for r, sd in combos if sd <= 2]
+                            elif thorough:
+                                todo = [(r, case_no % len(seeds)) for r in radii]
                             else:
                                 todo = [combos[case_no % len(combos)]]
                             fam_cl = thorough or ns <= 1
@@ -417,16 +422,20 @@ def run(tier="quick", seed=0):
     return {"name": "c03_route", "evaluations": st["ev"], "distinct_nontrivial": st["nontrivial"],
             "rule": "(i) every machine w,h in 1..3, mesh (wrap links dead) and torus; every source chip (quick: (0,0) only on a torus, by translation symmetry); "
                     "every multiset of 0..3 sink chips (sinks on the source chip and repeated chips included; every 3rd case lists the first sink twice, every 3rd also lists "
-                    "the source as its own sink; sink flavours one core / two cores / RouteEndpointConstraint / no allocation rotate); radius 0,1,20; random.seed 0..%d; "
-                    "faults: none, every single dead directed link with an end on a chip of the fault-free tree, every single dead chip hosting no vertex, every dead chip on the tree "
-                    "+ one near dead link (quick: 1-sink nets), every pair of dead directed near links with >= 1 on the tree (quick: 1-sink nets, half the 2-sink (radius, seed) combinations)%s. "
+                    "the source as its own sink; sink flavours one core / two cores / RouteEndpointConstraint / no allocation rotate); radius 0,1,20; random.seed values %s; "
+                    "fault families relative to the fault-free tree T of the same (net, radius, seed): L1 every single dead directed link with an end on a chip of T, C1 every single "
+                    "dead chip hosting no vertex, CL every dead chip on T + one near dead link, L2 every pair of dead near links with >= 1 on T, L3 every triple with >= 2 on T; %s. "
                     "(ii) %d seeded cases: machines up to 6x6, 1-3 nets of fan-out 1..9, directed dead-link density 0..85%%, 0-3 dead chips, radius 0/1/2/20. "
-                    "Non-trivial = the tree has at least one hop and (for faulted cases) a fault lies on the fault-free tree / any fault present in the sample; "
-                    "systematic cases are distinct by construction, sampled cases de-duplicated by hash. "
+                    "Non-trivial = the tree has at least one hop and (faulted systematic cases) a fault lies on T or the family is CL/L2/L3 / (sample) any fault present; "
+                    "systematic cases are distinct by construction, sampled cases de-duplicated by hash. One representative failing input per clause is minimised greedily "
+                    "(drop nets, sinks, dead chips, dead links while the clause persists). "
                     "Oracle per net: root chip, every chip once, each hop adjacent by its label modulo (w,h) over a live directed link between live chips, leaves = exactly the "
-                    "sinks with exactly their cores/endpoint on their chips, no childless hop; own strong-connectivity search decides whether failing was permitted."
-                    % (len(seeds) - 1, ", triples with two on the tree for nets of <= 2 sinks" if thorough else "", done_random),
-            "bound": "systematic: machines <= 3x3, <= 3 sinks, <= 2 dead directed links (thorough: 3) or one dead chip (+1 link); sample: machines <= 6x6, fan-out <= 9",
+                    "sinks with exactly their cores/endpoint (None when the sink has no core allocation) on their chips, no childless hop; own strong-connectivity search over "
+                    "directed working links decides whether MachineHasDisconnectedSubregion was permitted; any other exception is a violation."
+                    % ("0..4 (<= 1 sink), 0..2 (2 sinks), one rotating (3 sinks)" if thorough else "0..1 (<= 1 sink), one rotating (radius, seed) for 2- and 3-sink nets",
+                       "all families for all nets (L3 for <= 2 sinks)" if thorough else "1-sink nets: all families; 2-sink nets: L1 C1 L2; 3-sink nets: C1 and L1 on the links of T only",
+                       done_random),
+            "bound": "systematic: machines <= 3x3, <= 3 sinks, <= 3 dead directed links or one dead chip (+1 link); sample: machines <= 6x6, fan-out <= 9, <= 3 nets per call",
             "exhaustive": False, "label": "bounded", "samples": samples, "violations": viol,
             "clause_counts": counts, "systematic_breakdown": breakdown, "systematic_evaluations": systematic, "sampled_evaluations": done_random,
             "repair_cases": st["repairs"], "permitted_failures": st["failed_ok"],
